@@ -143,6 +143,24 @@ def shared_logl(x, offset=7.0, tgt=None):
     return tgt._logl_point(x) + offset
 
 
+class FaultyPool:
+    """Pool-like object whose map() fails ONCE, part-way through a batch (a lost worker): the points evaluated before the failure
+    WERE evaluated.  The library may let the error propagate (the run dies: fine) - but if it carries on, its call count must still
+    be the number of points at which the user's likelihood was evaluated."""
+
+    def __init__(self, fail_at_map=3):
+        self.fail_at_map, self.n_maps = fail_at_map, 0
+
+    def map(self, f, xs):
+        xs = list(xs)
+        self.n_maps += 1
+        if self.n_maps == self.fail_at_map:
+            for x in xs[: max(1, len(xs) // 2)]:
+                f(x)
+            raise OSError("worker lost (injected by the harness)")
+        return [f(x) for x in xs]
+
+
 DEFAULTS = dict(n_dim=2, n_particles=8, ess_ratio=2.0, volume_variation=None, evaluation="scalar", periodic=None,
                 reflective=None, pool=None, clustering=True, normalize=True, cluster_every=1, split_threshold=1.0,
                 n_max_clusters=None, sample="tpcn", n_steps=None, n_max_steps=None, resample="mult",
@@ -165,6 +183,8 @@ def build_sampler(conf: dict, rec: psrun.Recorder | None, out_dir=None):
         ll, vec, bd = tgt.logl_vector_reuse, True, None
     elif ev == "blobs":
         ll, vec, bd = tgt.logl_blob, False, "float"
+    elif ev == "blobs_f4":   # one scalar blob stored in single precision (pairs only: the recorder's blob provenance assumes float64)
+        ll, vec, bd = tgt.logl_blob, False, "f4"
     elif ev == "blobs2":
         ll, vec, bd = tgt.logl_blob2, False, "float"
     else:
@@ -197,6 +217,8 @@ def build_sampler(conf: dict, rec: psrun.Recorder | None, out_dir=None):
     pool = c["pool"]
     if pool == "perm":
         pool = PermutingPool(seed=c.get("pool_seed", 0))
+    elif pool == "faulty":
+        pool = FaultyPool(fail_at_map=c.get("fail_at_map", 3))
     s = Sampler(
         prior_transform=pt, log_likelihood=ll, n_dim=c["n_dim"], n_particles=c["n_particles"], ess_ratio=c["ess_ratio"],
         volume_variation=c["volume_variation"], vectorize=vec, blobs_dtype=bd, periodic=c["periodic"],
